@@ -763,3 +763,68 @@ def res_rules(ctx):
            '<- interpolator(times)', f=f, key='stores',
            why='interpolated blocks are stored under the wrong columns or evaluated at other '
                'times: %s' % {k: norm_text(v)[:60] for k, v in stores.items()})
+
+
+def diff_wrap_cols(ctx):
+    """Which columns of the difference are reduced: every angle column.  The operands may carry
+    un-normalised angles (a perturbed state with roll 180.2, a [0, 360) convention) while the
+    resampled operand comes back normalised by the rotation library - the final reduction is what
+    reconciles them, for roll and pitch as for heading."""
+    ctx.rule('DIFF-WRAP', 'compute_state_difference reduces all three angle differences (roll, pitch, '
+             'heading) with util.to_180_range before returning, on a path taken whenever they are '
+             'present')
+    repo = ctx.repo
+    f = repo.function('transform.compute_state_difference')
+    ctx.touch(f)
+    rph = list(repo.const('util.RPH_COLS'))
+    res = lambda n: f.module.resolve(n, f.local_names())
+    wrapped = set()
+    sites = []
+    for st in ast.walk(f.node):
+        if not (isinstance(st, ast.Assign) and isinstance(st.targets[0], ast.Subscript) and
+                isinstance(st.value, ast.Call) and
+                (res(st.value.func) or '').endswith('util.to_180_range') and st.value.args):
+            continue
+        try:
+            tcols = repo.fold(st.targets[0].slice, f.module)
+        except ValueError:
+            tcols = None
+        a0 = st.value.args[0]
+        try:
+            scols = repo.fold(a0.slice, f.module) if isinstance(a0, ast.Subscript) else None
+        except ValueError:
+            scols = None
+        tcols = [tcols] if isinstance(tcols, str) else (list(tcols) if tcols else None)
+        scols = [scols] if isinstance(scols, str) else (list(scols) if scols else None)
+        ctx.need(tcols is not None and scols is not None,
+                 'compute_state_difference: columns of `%s` not constant' % norm_text(st)[:60])
+        sites.append((st, tcols, scols))
+        ctx.ob('DIFF-WRAP', tcols == scols and norm_text(st.targets[0].value) ==
+               norm_text(a0.value), None, 'reduction of %s is stored back into the same columns'
+               % tcols, f=f, node=st, key='same-' + ','.join(tcols),
+               why='`%s` reduces columns %s but stores the result into %s'
+                   % (norm_text(st)[:70], scols, tcols))
+        wrapped |= set(tcols)
+    ctx.floor('DIFF-WRAP', len(sites), 1, 'angle reductions in compute_state_difference')
+    missing = [c for c in rph if c not in wrapped]
+    ctx.ob('DIFF-WRAP', not missing, None, 'all of %s are reduced' % rph, f=f,
+           node=sites[0][0], key='all-angles',
+           why='the %s difference is returned as a raw subtraction (only %s reduced): for angles '
+               'on either side of +-180 deg (an inverted platform, an operand that is not '
+               'normalised against a resampled one) the difference is off by 360 deg'
+               % ('/'.join(missing), sorted(wrapped)))
+    # the reduction is reached whenever the columns are present: its guard is a presence test of
+    # (a superset of) the reduced columns, not of something else
+    for st, tcols, _ in sites:
+        guards = [x for x in ast.walk(f.node) if isinstance(x, ast.If) and
+                  any(y is st for y in ast.walk(x))]
+        for gd in guards:
+            t = norm_text(gd.test)
+            okg = ('_has_rph(' in t) or all(("'%s' in" % c) in t for c in tcols) or \
+                ('RPH_COLS' in t and 'in ' in t)
+            if 'isinstance' in t:
+                continue          # the table / series dispatch
+            ctx.ob('DIFF-WRAP', okg, None, 'the reduction of %s is guarded by their presence'
+                   % tcols, f=f, node=gd, key='guard-' + ','.join(tcols),
+                   why='the reduction of %s runs only under `%s`, which is not a test that these '
+                       'columns are present' % (tcols, t[:60]))
